@@ -9,6 +9,8 @@
      the Stream run: which native implementation of every executed node was called
      (only recorded, and only compared, when all four paradigms succeeded).  For graphs
      without a fan-in the exact chunk lists of the Stream and the Transform run as well.
+   * [CaseTwo]: two [CaseProg]s of the same compiled object, called one after the other on two
+     different inputs.
    * [CasePack]: one lambda packed by newRunnablePacker, its four views called directly
      (hook VerifPack): results, exact output chunk lists and the native used per view.
 
@@ -92,10 +94,14 @@ Inductive ccase : Type :=
                 paradigms succeeded: the exact chunk lists Stream and Transform delivered *)
 | CasePack (sp : nspec) (chunks : list val)
            (oI : robs) (oS : sobs) (oC : robs) (oT : sobs)
-           (used4 : list N).
+           (used4 : list N)
+| CaseTwo (a b : ccase).
+    (* the same compiled object called on two inputs, one after the other (what a compiled object
+       keeps between calls must not influence a later call): both must agree with the model *)
 
-Definition bad (c : ccase) : bool :=
+Fixpoint bad (c : ccase) : bool :=
   match c with
+  | CaseTwo a b => bad a || bad b
   | CaseProg sp chunks oI oS oC oT calls schunks =>
       let s := map Val chunks in
       let p := compile_sprog sp in
